@@ -10,10 +10,12 @@ import (
 
 	"github.com/risor-io/risor"
 	"github.com/risor-io/risor/compiler"
+	modFilepath "github.com/risor-io/risor/modules/filepath"
 	"github.com/risor-io/risor/object"
 	"github.com/risor-io/risor/parser"
 	"github.com/risor-io/risor/verif/fw"
 	"github.com/risor-io/risor/verif/sim"
+	"github.com/risor-io/risor/verif/simos"
 	"github.com/risor-io/risor/vm"
 )
 
@@ -37,12 +39,27 @@ func (bg *blockGen) fresh(prefix string) string {
 // leaf returns statements that never terminate on their own (or block for a
 // simulated hour at a time). allowSpawn limits thread-in-leaf nesting.
 func (bg *blockGen) leaf(allowSpawn bool) string {
-	n := 11
+	n := 15
 	if !allowSpawn {
-		n = 10
+		n = 14
 	}
 	k := bg.g.Intn(n)
 	switch k {
+	case 10:
+		c := bg.fresh("c")
+		fmt.Fprintf(&bg.prelude, "%s := chan()\n", c)
+		bg.Shapes = append(bg.Shapes, "for-in-chan")
+		return fmt.Sprintf("for v in %s { tick() }", c)
+	case 11:
+		bg.Shapes = append(bg.Shapes, "range-int")
+		return "for { for i := range 2000000000 { tick() } }"
+	case 12:
+		bg.Shapes = append(bg.Shapes, "while-loop")
+		x := bg.fresh("w")
+		return fmt.Sprintf("%s := 0; for %s >= 0 { %s++ }", x, x, x)
+	case 13:
+		bg.Shapes = append(bg.Shapes, "sleep-short")
+		return "for { time.sleep(0.05); tick() }"
 	case 0:
 		bg.Shapes = append(bg.Shapes, "busy")
 		return "for { }"
@@ -97,9 +114,17 @@ func (bg *blockGen) leaf(allowSpawn bool) string {
 
 // wrap places a leaf inside a callback-carrying construct.
 func (bg *blockGen) wrap(leaf string) string {
-	switch bg.g.Intn(10) {
+	switch bg.g.Intn(12) {
 	case 0, 1, 2:
 		return leaf
+	case 10:
+		bg.Shapes = append(bg.Shapes, "in-call")
+		return fmt.Sprintf("call(func(a) { %s }, 1)", leaf)
+	case 11:
+		// the callback runs inside filepath.walk_dir, which itself runs inside
+		// the host-supplied (simulated) OS
+		bg.Shapes = append(bg.Shapes, "in-walk-dir")
+		return fmt.Sprintf("filepath.walk_dir(\"/data\", func(p, info, err) { %s })", leaf)
 	case 3:
 		bg.Shapes = append(bg.Shapes, "in-map")
 		return fmt.Sprintf("[1, 2, 3].map(func(x) { %s })", leaf)
@@ -263,8 +288,13 @@ func runC06(rc *fw.RunCtx) {
 	strat := sim.DrawStrategy(sched, 300)
 	s := sim.New(sched, strat, 30000)
 	h := &Host{}
-	extra := map[string]any{"tick": h.Tick()}
+	extra := map[string]any{"tick": h.Tick(), "filepath": modFilepath.Module()}
 	opts := baseOpts(extra)
+	sos := simos.New()
+	sos.MkdirAll("/data/sub", 0o755)
+	sos.WriteFile("/data/a.txt", []byte("a"), 0o644)
+	sos.WriteFile("/data/sub/b.txt", []byte("b"), 0o644)
+	opts = append(opts, risor.WithOS(sos))
 
 	var ctx context.Context
 	var cancel context.CancelFunc
